@@ -6,5 +6,5 @@ Extraction "csv_model.ml" zadd zmul zopp zeqb zltb z_of_nat z_to_nat z_of_n z_to
   field_names chunk_records nmetrics write_csv dump_csv cv_docs convert_from_csv
   chunk_int_rows int_rows chunk_types has_date group_by_count count_changes record_ok invisible
   c18_ok_write c18_ok_dump c18_ok_roundtrip rt_applies
-  class_zero_metric class_lone_empty_key class_key_crlf
+  class_lone_empty_key class_key_crlf
   chunk_view model_obs_write model_obs_dump model_obs_convert model_obs_convert_failing.
